@@ -101,9 +101,14 @@ def run_case(a):
                 viol.append(("C14 rerun-mutating-syscall path=%s call=%s" % (path, mut[0]["call"]), "unchanged re-run issued %s" % mut[0]["raw"], wit))
         # ---- (b) forced runs from every cache state
         ref = None
-        for state in ("matching", "absent", "mismatching", "corrupt", "wrong-version"):
+        for state in ("matching", "absent", "mismatching", "corrupt", "wrong-version", "directory-in-its-place"):
             cache = os.path.join(out, ".typecache")
-            if state == "absent":
+            if state == "directory-in-its-place":
+                # a record that can be neither read nor replaced: forced generation does not depend on the cache at all
+                if os.path.isfile(cache):
+                    os.unlink(cache)
+                os.makedirs(os.path.join(cache, "sub"), exist_ok=True)
+            elif state == "absent":
                 if os.path.exists(cache):
                     os.unlink(cache)
             elif state == "corrupt":
@@ -151,6 +156,11 @@ def run_case(a):
                     cur = {k2: v2 for k2, v2 in now.items() if k2.endswith(".ts")}
                     if cur != ref:
                         viol.append(("C14 forced-output-differs-between-cache-states path=%s" % path, "forced generation from cache state %s differs from the first forced generation" % state, wit))
+        # put a usable record back before the no-op phases
+        import shutil as _sh
+        if os.path.isdir(os.path.join(out, ".typecache")):
+            _sh.rmtree(os.path.join(out, ".typecache"))
+            run_once(seed * 3 + 6, force=True if path != "build" else False, cfg_force=True if path == "build" else None, traced=False)
         # ---- (c) a plain re-run after a forced one (and with another verbosity) must again be a no-op: force and
         #          verbosity are not inputs of the generated files
         if path == "cli":
